@@ -282,6 +282,59 @@ fn reference_graph_documents(tier: &str) -> Vec<(String, String)> {
     out
 }
 
+/// Documents whose COST could grow faster than their size: ladders of forward references (every
+/// level refers `width` times to the next level, declared top-down, so each reference is resolved
+/// ahead of its turn) and layered import lattices (every file of a level imports both files of the
+/// next level). The time limit of the pool is linear in the input size, so an exponential reader
+/// shows up as a timeout.
+fn scaling_documents() -> Vec<(String, Case)> {
+    let open = "<xs:schema xmlns:xs=\"http://www.w3.org/2001/XMLSchema\" xmlns:t=\"urn:t\" targetNamespace=\"urn:t\" elementFormDefault=\"qualified\">";
+    let close = "</xs:schema>";
+    let mut out = vec![];
+    for width in [2usize, 3] {
+        for levels in [8usize, 16, 24, 32, 64] {
+            let mut body = String::new();
+            for i in 0..levels {
+                body.push_str(&format!("<xs:element name=\"E{i}\"><xs:complexType><xs:sequence>"));
+                for _ in 0..width {
+                    body.push_str(&format!("<xs:element ref=\"t:E{}\" minOccurs=\"0\"/>", i + 1));
+                }
+                body.push_str("</xs:sequence></xs:complexType></xs:element>");
+            }
+            body.push_str(&format!("<xs:element name=\"E{levels}\" type=\"xs:string\"/>"));
+            out.push((format!("ref-ladder:levels={levels}:width={width}"), Case::single("t.xsd", &format!("{open}{body}{close}"))));
+        }
+    }
+    for levels in [8usize, 16, 24, 32, 64] {
+        // T<i> extends T<i+1> and refs G<i+1>, whose anonymous type extends T<i+1> too
+        let mut body = String::new();
+        for i in 0..levels {
+            body.push_str(&format!("<xs:complexType name=\"T{i}\"><xs:complexContent><xs:extension base=\"t:T{}\"><xs:sequence><xs:element ref=\"t:G{}\" minOccurs=\"0\"/></xs:sequence></xs:extension></xs:complexContent></xs:complexType>", i + 1, i + 1));
+        }
+        body.push_str(&format!("<xs:complexType name=\"T{levels}\"><xs:sequence><xs:element name=\"v\" type=\"xs:string\"/></xs:sequence></xs:complexType>"));
+        for i in 1..=levels {
+            body.push_str(&format!("<xs:element name=\"G{i}\"><xs:complexType><xs:complexContent><xs:extension base=\"t:T{i}\"/></xs:complexContent></xs:complexType></xs:element>"));
+        }
+        out.push((format!("base-and-ref-ladder:levels={levels}"), Case::single("t.xsd", &format!("{open}{body}{close}"))));
+    }
+    for levels in [4usize, 8, 16, 32] {
+        let mut files = vec![];
+        let file = |name: &str, ns: &str, imports: &[(String, String)], ty: &str| {
+            let imps: String = imports.iter().map(|(n, l)| format!("<xs:import namespace=\"{n}\" schemaLocation=\"{l}\"/>")).collect();
+            (name.to_string(), format!("<xs:schema xmlns:xs=\"http://www.w3.org/2001/XMLSchema\" targetNamespace=\"{ns}\" elementFormDefault=\"qualified\">{imps}<xs:complexType name=\"{ty}\"><xs:sequence><xs:element name=\"v\" type=\"xs:string\"/></xs:sequence></xs:complexType></xs:schema>"))
+        };
+        let next = |l: usize| -> Vec<(String, String)> { if l >= levels { vec![] } else { (0..2).map(|k| (format!("urn:l{}k{k}", l + 1), format!("l{}k{k}.xsd", l + 1))).collect() } };
+        files.push(file("start.xsd", "urn:start", &next(0), "Start"));
+        for l in 1..=levels {
+            for k in 0..2 {
+                files.push(file(&format!("l{l}k{k}.xsd"), &format!("urn:l{l}k{k}"), &next(l), &format!("L{l}K{k}")));
+            }
+        }
+        out.push((format!("import-lattice:levels={levels}"), Case { files, start: "start.xsd".into() }));
+    }
+    out
+}
+
 struct Job {
     seed: String,
     file: String,
@@ -387,6 +440,23 @@ pub fn check(tier: &str) -> i32 {
         n_graph += 1;
         jobs.push(Job { seed: "reference-graphs".into(), file: "t.xsd".into(), kind: "reference-graph".into(), detail: d, depth: 0, case: Case { files: vec![("t.xsd".into(), text)], start: "t.xsd".into() } });
     }
+    let mut n_scaling = 0;
+    for (d, case) in scaling_documents() {
+        n_scaling += 1;
+        jobs.push(Job { seed: "scaling".into(), file: case.start.clone(), kind: "scaling-document".into(), detail: d, depth: 0, case });
+    }
+    // the designated start file is not among the registered files
+    {
+        let mut c = crate::seeds::s0().to_case();
+        c.start = "zv-not-registered.xsd".into();
+        jobs.push(Job { seed: "seed:s0".into(), file: "-".into(), kind: "start-file-not-registered".into(), detail: String::new(), depth: 1, case: c });
+    }
+    // hundreds of namespaces with ONE abbreviation (declared on the root, and as imports are not needed)
+    for count in [12usize, 254, 255, 256, 300, 1000] {
+        let decls: String = (0..count).map(|k| format!(" xmlns:p{k}=\"http://zv.example/c{k}/types\"")).collect();
+        let text = format!("<xs:schema xmlns:xs=\"http://www.w3.org/2001/XMLSchema\"{decls} targetNamespace=\"http://zv.example/c0/types\" elementFormDefault=\"qualified\"><xs:complexType name=\"A\"><xs:sequence><xs:element name=\"v\" type=\"xs:string\"/></xs:sequence></xs:complexType></xs:schema>");
+        jobs.push(Job { seed: "colliding-abbreviations".into(), file: "t.xsd".into(), kind: "many-colliding-namespaces".into(), detail: format!("count={count}"), depth: 0, case: Case::single("t.xsd", &text) });
+    }
     // non-XML and edge texts
     for (d, t) in [("empty", ""), ("whitespace", "  \n"), ("bom-only", "\u{feff}"), ("not-xml", "hello world"), ("json", "{\"a\":1}"), ("huge-depth", &"<a>".repeat(20000)), ("entity-bomb-ish", "<!DOCTYPE a [<!ENTITY x \"xxxxxxxxxx\">]><a>&x;&x;&x;</a>"), ("nul", "<a>\u{0}</a>")] {
         jobs.push(Job { seed: "raw-text".into(), file: "t.xsd".into(), kind: "raw-text".into(), detail: d.into(), depth: 0, case: Case::single("t.xsd", t) });
@@ -472,7 +542,7 @@ pub fn check(tier: &str) -> i32 {
     rep.set("evaluations", json!(done));
     rep.set("max_depth", json!(if tier == "thorough" { 2 } else { 1 }));
     rep.set("exhaustive", json!(!stopped));
-    rep.set("bound", json!(format!("all single structural mutations (delete/duplicate/move/swap element, delete/empty/alter attribute, alter namespace declarations, retarget every QName attribute to every declared name / itself / undeclared prefix / dangling name, rename to an existing name, truncate at every tag boundary, replace root) of {} seed inputs{}; all token documents of <= {} tokens over an {}-token alphabet ({} documents); {} reference-graph documents (three global elements with every ordered list of 0-2 ref= each; three complex types with every base= and every member ref= to an element of one of the types); raw non-XML texts", seeds.len(), if tier == "thorough" { "; all pairs of mutations for the generated seeds s0 and w0; signature-reduced single mutations of the large inputs" } else { "" }, tok_len, TOKENS.len(), n_tok, n_graph)));
+    rep.set("bound", json!(format!("all single structural mutations (delete/duplicate/move/swap element, delete/empty/alter attribute, alter namespace declarations, retarget every QName attribute to every declared name / itself / undeclared prefix / dangling name, rename to an existing name, truncate at every tag boundary, replace root) of {} seed inputs{}; all token documents of <= {} tokens over an {}-token alphabet ({} documents); {} reference-graph documents (three global elements with every ordered list of 0-2 ref= each; three complex types with every base= and every member ref= to an element of one of the types); {} scaling documents (forward-reference ladders of 8-64 levels and width 2-3 by ref= and by base=+ref=, import lattices of 4-32 levels: cost must stay within the size-linear time limit); a start file that is not registered; 12-1000 namespaces sharing one abbreviation; raw non-XML texts", seeds.len(), if tier == "thorough" { "; all pairs of mutations for the generated seeds s0 and w0; signature-reduced single mutations of the large inputs" } else { "" }, tok_len, TOKENS.len(), n_tok, n_graph, n_scaling)));
     rep.set("per_seed", json!(per_seed));
     rep.set("outcome_classes", json!(classes));
     rep.set("distinct_error_kinds", json!(err_kinds.len()));
